@@ -21,7 +21,7 @@ ASSUMPTIONS = ["no symlinks/FIFOs/unreadable files (the statement lists regular 
                "stderr is unconstrained", "junk classification per mode uses the decoder's own verdict on the single file"]
 
 MODES_FULL = [["-a"], ["-a", "-x"], ["-j"]]
-MODES_SUMMARY = [["-l"], ["-l", "-x"], ["--plid"], ["--src"], ["--src-exclude"], ["-l", "-r"]]
+MODES_SUMMARY = [["-l"], ["-l", "-x"], ["--plid"], ["--src"], ["--src-exclude"], ["-l", "-r"], ["--src", "-x"], ["--src-exclude", "-x"]]
 MODES_COUNT = [["-n"]]
 
 
@@ -160,11 +160,11 @@ def run(spec, ctx):
             for argv in modes:
                 a = list(argv)
                 if a[0] == "--plid":
-                    a.append("%08X" % target.pel.plid)
+                    a.insert(1, "%08X" % target.pel.plid)
                 elif a[0] == "--src":
-                    a.append(rng.choice(["B", "1", "BD", "E5"]))
+                    a.insert(1, rng.choice(["B", "1", "BD", "E5"]))
                 elif a[0] == "--src-exclude":
-                    a.append(excl)
+                    a.insert(1, excl)
                 label = " ".join(argv)
                 ctx.count("mode." + label)
                 oc = os.path.join(root, "out-clean") if a[0] == "-j" else None
